@@ -121,7 +121,14 @@ class Model:
 
 
 def _parse(msg):
-    """(kind, remote id, extended type, data / amount)"""
+    """(kind, remote id, extended type, data / amount); a message too short for its fixed fields is ("malformed", ...)"""
+    try:
+        return _parse_fields(msg)
+    except struct.error:
+        return "malformed", None, 0, None
+
+
+def _parse_fields(msg):
     mt, p = msg
     rid = struct.unpack(">L", p[:4])[0] if len(p) >= 4 else None
     if mt == DATA:
@@ -449,6 +456,8 @@ MUTANTS = [
            '\n    def requestReceived', expect_rule="s/close/recorded"),
     Mutant("ext-limit-test-through-min-off-by-one", CO, "        if dataLength > channel.localWindowLeft or dataLength > channel.localMaxPacket:\n", "        if dataLength >= min(channel.localWindowLeft, channel.localMaxPacket):\n",
            expect_rule="s/receive/window-boundary"),
+    Mutant("adjust-header-through-a-precompiled-struct-of-shorts", CO, '        packet = struct.pack(">2L", self.channelsToRemoteChannel[channel], bytesToAdd)', '        packet = _ADJUST.pack(self.channelsToRemoteChannel[channel], bytesToAdd)', expect_rule="s/adjust/local-equals-advertised",
+           more=[(CO, "from twisted.logger import Logger\n", "from twisted.logger import Logger\n\n_ADJUST = struct.Struct(\">LH\")\n")]),
 ]
 SILENT = [
     Silent("close-guard-as-early-return", CH, "        self.closing = 1\n        if not self.buf and not self.extBuf:\n            self.conn.sendClose(self)\n", "        self.closing = 1\n        if self.buf or self.extBuf:\n            return\n        self.conn.sendClose(self)\n"),
@@ -477,4 +486,6 @@ SILENT = [
     Silent("decrement-by-len-of-truncated-data", CH, "        self.remoteWindowLeft -= top\n", "        self.remoteWindowLeft -= len(data)\n"),
     Silent("addWindowBytes-augassign", CH, "        self.remoteWindowLeft = self.remoteWindowLeft + data\n", "        self.remoteWindowLeft += data\n"),
     Silent("ext-limit-test-through-min", CO, "        if dataLength > channel.localWindowLeft or dataLength > channel.localMaxPacket:\n", "        if dataLength > min(channel.localWindowLeft, channel.localMaxPacket):\n"),
+    Silent("adjust-header-through-a-precompiled-struct", CO, '        packet = struct.pack(">2L", self.channelsToRemoteChannel[channel], bytesToAdd)', '        packet = _ADJUST.pack(self.channelsToRemoteChannel[channel], bytesToAdd)',
+           more=[(CO, "from twisted.logger import Logger\n", "from twisted.logger import Logger\n\n_ADJUST = struct.Struct(\">2L\")\n")]),
 ]
